@@ -18,8 +18,7 @@ for hb in ctx.facts.hir:
         fns.append(hb["crate"] + "::" + hb["path"])
         seen = []
         for ty, nm, _ in C.local_bindings(hb):
-            if [ty, nm] not in seen:
-                seen.append([ty, nm])
+            seen.append([ty, nm])
         if seen:
             out[hb["crate"] + "::" + hb["path"]] = seen
 sigs = {hb["crate"] + "::" + hb["path"]: [hb["inputs"], hb["output"]] for hb in ctx.facts.hir
